@@ -490,6 +490,14 @@ func (s *spanScreen) deleteChars(x int, y int, n int, cr ChangeReason) {
 	}
 
 	line := &s.lines[y]
+	// Deleting the rest of the row from inside a wide character blanks that
+	// character from its first cell: announce those cells too.
+	from := x
+	if x+n >= s.size.X {
+		for from > 0 && wideTailAt(line, from, s.textMode) > 0 {
+			from--
+		}
+	}
 	// Delete characters from x to x+n, shift remaining chars left, and append spaces at the end
 	replaceRange(line, x, n, Span{}, s.textMode)
 	// Now append spaces to fill the end to width s.size.X
@@ -499,7 +507,7 @@ func (s *spanScreen) deleteChars(x int, y int, n int, cr ChangeReason) {
 		line.width = s.size.X
 	}
 
-	s.frontend.RegionChanged(Region{Y: y, Y2: y + 1, X: x, X2: s.size.X}, cr)
+	s.frontend.RegionChanged(Region{Y: y, Y2: y + 1, X: from, X2: s.size.X}, cr)
 }
 
 func (s *spanScreen) setCursorPos(x, y int) {
